@@ -288,6 +288,61 @@ func main() {
 				}
 			}})
 	}
+	// --- every message length, with caller buffers that have spare capacity behind them
+	const maxML = 2200
+	ck.Domains = append(ck.Domains, &drv.Domain{Name: "xmss-message-lengths", Size: (maxML + 1) * 3, Chunk: 50,
+		Desc: "xmss.Verify / VerifyWithCustomWOTSParamW(4,256) with a well-sized signature on EVERY message length 0..2200 x 3 hash functions (hash input assembly crosses every block / scratch-size boundary); signature and message are windows into larger caller buffers (64 guard bytes behind each, capacity reaching into them): no fault, and neither the windows nor the bytes behind them change",
+		Run: func(c *drv.Ctx, lo, hi int64) {
+			initX(c.Seed)
+			for i := lo; i < hi; i++ {
+				c.At(i)
+				ml, hf := int(i%(maxML+1)), byte(i/(maxML+1))
+				for _, w := range []uint32{16, 4, 256} {
+					if w != 16 && ml%7 != 0 && ml < 2100 {
+						continue // the custom-w entry points: every 7th length and the top of the range
+					}
+					sl := baseSize(w) + 32*4
+					sbuf := make([]byte, sl+64)
+					if w == 16 {
+						copy(sbuf, validXSig)
+					} else {
+						for k := range sbuf[:sl] {
+							sbuf[k] = byte(k*7 + ml)
+						}
+					}
+					for k := sl; k < len(sbuf); k++ {
+						sbuf[k] = 0xA5
+					}
+					mbuf := make([]byte, ml+64)
+					for k := range mbuf {
+						mbuf[k] = byte(k*13+int(hf)) | 1
+					}
+					s0, m0 := append([]byte(nil), sbuf...), append([]byte(nil), mbuf...)
+					sig, msg := sbuf[:sl], mbuf[:ml] // cap(sig) = sl+64, cap(msg) = ml+64
+					pk := validXPK
+					pk[0], pk[1] = hf, 2
+					what := func() string {
+						return fmt.Sprintf("w=%d hash=%d len(msg)=%d len(sig)=%d cap(sig)=%d cap(msg)=%d", w, hf, ml, sl, cap(sig), cap(msg))
+					}
+					var o string
+					if w == 16 {
+						o = run(c, i, "xmss.Verify", true, what, func() string { return fmt.Sprint(xmss.Verify(msg, sig, pk)) })
+					} else {
+						o = run(c, i, fmt.Sprintf("xmss.VerifyWithCustomWOTSParamW(%d)", w), true, what, func() string { return fmt.Sprint(xmss.VerifyWithCustomWOTSParamW(msg, sig, pk, w)) })
+					}
+					if !bytes.Equal(sbuf, s0) || !bytes.Equal(mbuf, m0) {
+						k := 0
+						for ; k < len(sbuf) && sbuf[k] == s0[k]; k++ {
+						}
+						c.Fail(i, "xmss.Verify:modified-caller-buffers", map[string]any{"input": what(), "first_changed_signature_buffer_offset": k, "signature_window_length": sl,
+							"note": "offset >= window length: the bytes BEHIND the signature in the caller's buffer were written (append / re-slice beyond len)"})
+					}
+					c.Eval(1)
+					c.Nontrivial(1)
+					c.Outcome(fmt.Sprintf("w=%d %s", w, o))
+				}
+			}
+		}})
 	// --- address functions
 	ck.Domains = append(ck.Domains, &drv.Domain{Name: "xmss-address-functions", Size: 65536 * 3, Chunk: 4096, Desc: "IsValidXMSSAddress, IsValidLegacyXMSSAddress, GetXMSSAddressFromPK, GetLegacyXMSSAddressFromPK, NewQRLDescriptorFromBytes on all 2^16 descriptors x 3 fills",
 		Run: func(c *drv.Ctx, lo, hi int64) {
@@ -367,6 +422,40 @@ func main() {
 				if l == len(dsm) && fill == 3 {
 					c.Sample(map[string]any{"input": what(), "outcome": o})
 				}
+			}
+		}})
+	ck.Domains = append(ck.Domains, &drv.Domain{Name: "dilithium-spare-capacity", Size: 80, Chunk: 4,
+		Desc: "dilithium.Open / Verify with the sealed message and the message as windows into larger caller buffers (guard bytes behind, capacity reaching into them), message lengths 0..39 x {as is, tampered}: the guard bytes and the windows are unchanged",
+		Run: func(c *drv.Ctx, lo, hi int64) {
+			initD(c.Seed)
+			for i := lo; i < hi; i++ {
+				c.At(i)
+				ml, tamper := int(i/2), i%2 == 1
+				buf := make([]byte, CB+ml+64)
+				copy(buf, dsm[:CB])
+				for k := CB; k < len(buf); k++ {
+					buf[k] = byte(0xC0 + k%13)
+				}
+				if CB+ml == len(dsm) {
+					copy(buf, dsm) // the genuine sealed message at its own length
+				}
+				if tamper {
+					buf[40] ^= 1
+				}
+				b0 := append([]byte(nil), buf...)
+				sm := buf[:CB+ml]
+				pk := dpk
+				what := func() string { return fmt.Sprintf("len(sm)=%d cap(sm)=%d tampered=%v", len(sm), cap(sm), tamper) }
+				o := run(c, i, "dilithium.Open", false, what, func() string { return fmt.Sprint(dilithium.Open(sm, &pk) != nil) })
+				var sg [CB]byte
+				copy(sg[:], sm[:CB])
+				o2 := run(c, i, "dilithium.Verify", false, what, func() string { return fmt.Sprint(dilithium.Verify(sm[CB:], sg, &pk)) })
+				if !bytes.Equal(buf, b0) || pk != dpk {
+					c.Fail(i, "dilithium.Open:modified-caller-buffers", map[string]any{"input": what()})
+				}
+				c.Eval(2)
+				c.Nontrivial(2)
+				c.Outcome(o + "/" + o2)
 			}
 		}})
 	ck.Domains = append(ck.Domains, &drv.Domain{Name: "dilithium-hint-bytes", Size: 83 * 256 * 2, Chunk: 256, Desc: "Verify and Open on a valid signature with every single-byte substitution in the 83-byte hint section x all 256 values (count bytes 76..255 included), with the real pk and an all-FF pk",
